@@ -1,6 +1,8 @@
 #!/usr/bin/env python3
 """Confirm sub-agent mutations in their scratch worktrees and record them under /verif/seeded/.
-For each /tmp/wt/<P>/_mut/<m>: demo passes on HEAD, patch applies, builds, the 60 stable tests
+Environment: WT_ROOT (default /tmp/wt) = where the sub-agents' worktrees are, SEED_TAG (default "")
+= inserted before the mutation name in the directory name (round 2: SEED_TAG=r2 gives C01-r2m1).
+For each $WT_ROOT/<P>/_mut/<m>: demo passes on HEAD, patch applies, builds, the 60 stable tests
 still pass, demo fails with the patch; then the registered check(s) are run against /repo with
 the patch applied (and reverted). Usage: confirm_seeded.py [P ...]"""
 import json, os, subprocess, sys, shutil, glob
@@ -25,17 +27,21 @@ def suite_ok(wt):
     return len(missing)==0, missing
 # which checks to run for a mutant of property P (own property first)
 EXTRA={'C01':['C14','C09'],'C05':['C07'],'C09':['C01'],'C10':['C11'],'C11':['C10']}
+WT_ROOT=os.environ.get('WT_ROOT','/tmp/wt'); TAG=os.environ.get('SEED_TAG','')
+if TAG=='r2':
+    EXTRA={'C01':['C14','C09'],'C02':['C15','C07'],'C03':['C11'],'C04':['C19','C08'],'C05':['C19','C16'],'C09':['C01','C15'],
+           'C11':['C10','C12'],'C13':['C14'],'C15':['C18'],'C16':['C05'],'C19':['C05'],'C20':['C10','C11']}
 def main():
-    props=sys.argv[1:] or sorted(os.path.basename(p) for p in glob.glob('/tmp/wt/C??') if os.path.isdir(p))
+    props=sys.argv[1:] or sorted(os.path.basename(p) for p in glob.glob(WT_ROOT+'/C??') if os.path.isdir(p))
     for P in props:
-        wt='/tmp/wt/'+P
+        wt=WT_ROOT+'/'+P
         for mdir in sorted(glob.glob(wt+'/_mut/m?')):
             m=os.path.basename(mdir)
-            dst='/verif/seeded/%s-%s'%(P,m)
-            meta={'property':P,'mutation':m}
+            dst='/verif/seeded/%s-%s%s'%(P,TAG,m)
+            meta={'property':P,'mutation':TAG+m,'round':2 if TAG=='r2' else 1}
             try: meta['notes']=json.load(open(mdir+'/notes.json'))
             except Exception as e: meta['notes']={'error':str(e)}
-            sh('git checkout -q --detach main && git checkout -- . && git clean -fdxq -e _mut', wt)
+            sh('git checkout -- . && git clean -fdxq -e _mut', wt)
             patch=mdir+'/patch.diff'
             rc0,o0=sh('sh _mut/%s/run.sh'%m, wt)
             meta['demo_on_unchanged_tree_exit']=rc0
